@@ -293,7 +293,14 @@ func c06request() *http.Request {
 		return req.WithContext(context.Background())
 	}
 	req.Body = http.NoBody
-	switch verifChoose("rangeHeader", 7) {
+	switch verifChoose("rangeHeader", 10) {
+	case 7:
+		// boundary values of the int64 arithmetic on range ends
+		req.Header.Set("Range", "bytes=0-9223372036854775807")
+	case 8:
+		req.Header.Set("Range", "bytes=9223372036854775807-")
+	case 9:
+		req.Header.Set("Range", "bytes=1-18446744073709551615")
 	case 1:
 		req.Header.Set("Range", "bytes="+num("r0")+"-"+num("r1"))
 	case 2:
